@@ -12,10 +12,12 @@ Hypotheses are only what the chain itself guarantees before the checks run:
   panics in `sdkmath.Int` — that failing set is C19's finding, not repeated here; the
   theorems `*_panics_iff`/`buyerFee_no_panic` say the guards are exactly what is needed.
 
-The unchanged code violates one clause: `CreateMarket` stores the create-commitment required
-attributes without normalising them, so a market that asks for `KYC.pb` refuses an account
-that carries `kyc.pb` (`commit_reqattr_not_normalised`, replayed on the implementation;
-known_findings.json).  For asks and bids the clause is proved (`ask_bid_reqattrs_normalised`).
+Before provenance commit 7640f62e9 the code violated one clause: `CreateMarket` stored the
+create-commitment required attributes without normalising them, so a market that asked for
+`KYC.pb` refused an account that carries `kyc.pb`
+(`commit_reqattr_not_normalised_before_fix`, about the `storeMarketPreFix` definition;
+known_findings.json, status fixed).  For the current code the clause is proved for all three
+lists (`reqattrs_normalised`, `commit_reqattr_normalised_admits`).
 -/
 import PvProofs.Lemmas.AdmitBuyer
 import PvProofs.Lemmas.AdmitAttr
@@ -942,28 +944,65 @@ theorem askPrice_ok_for_larger_price {rs : List Ratio} {price : Coin} {flat : Op
 
 /-! ### Required attributes are the ones the market asked for (after name normalisation) -/
 
-/-- For asks and bids the stored lists are the normalised requested lists, so "carries every
-attribute the market requires" is about normalised names on both sides. -/
+/-- **The stored required attributes are the requested ones, normalised — for asks, bids and
+commitments**: "carries every attribute the market requires" is about normalised names on
+both sides, whatever spelling the market was created with. -/
+theorem reqattrs_normalised (requested : Market) (attrs : List String) :
+    (AttrsOk (storeMarket requested).reqAsk attrs ↔ AttrsOkNorm requested.reqAsk attrs) ∧
+    (AttrsOk (storeMarket requested).reqBid attrs ↔ AttrsOkNorm requested.reqBid attrs) ∧
+    (AttrsOk (storeMarket requested).reqCommit attrs ↔ AttrsOkNorm requested.reqCommit attrs) :=
+  ⟨Iff.rfl, Iff.rfl, Iff.rfl⟩
+
+/-- kept under its first name: the ask and bid part -/
 theorem ask_bid_reqattrs_normalised (requested : Market) (attrs : List String) :
     (AttrsOk (storeMarket requested).reqAsk attrs ↔ AttrsOkNorm requested.reqAsk attrs) ∧
     (AttrsOk (storeMarket requested).reqBid attrs ↔ AttrsOkNorm requested.reqBid attrs) :=
   ⟨Iff.rfl, Iff.rfl⟩
 
-/-- The same clause is FALSE for commitments: `CreateMarket` stores the create-commitment list
-as given.  A market asking for `KYC.pb` refuses the account that carries `kyc.pb` although
-the requested attribute, normalised like every name on chain, is matched — and accepts
-nobody, since account attribute names are always normalised. -/
-theorem commit_reqattr_not_normalised :
+/-- Everything else `CreateMarket` writes is what was requested. -/
+theorem storeMarket_keeps_fees_and_flags (m : Market) :
+    (storeMarket m).createAskFlat = m.createAskFlat ∧ (storeMarket m).createBidFlat = m.createBidFlat ∧
+    (storeMarket m).createCommitFlat = m.createCommitFlat ∧ (storeMarket m).sellerFlat = m.sellerFlat ∧
+    (storeMarket m).buyerFlat = m.buyerFlat ∧ (storeMarket m).sellerRatios = m.sellerRatios ∧
+    (storeMarket m).buyerRatios = m.buyerRatios ∧ (storeMarket m).acceptingOrders = m.acceptingOrders ∧
+    (storeMarket m).userSettle = m.userSettle ∧
+    (storeMarket m).acceptingCommitments = m.acceptingCommitments :=
+  ⟨rfl, rfl, rfl, rfl, rfl, rfl, rfl, rfl, rfl, rfl⟩
+
+/-- **Commit funds in terms of the market as requested**: for every requested market, a
+commitment is accepted ⇔ valid, the market accepts commitments, the account carries every
+requested create-commitment attribute (normalised), the creation fee covers an option, and
+the funds are there. -/
+theorem commitFunds_requested_iff {requested : Market} {attrs : List String} {bal : Coins}
+    {m : CommitMsg} (hw : (requested.createCommitFlat.map (·.1)).Nodup) :
+    commitFunds (some (storeMarket requested)) attrs bal m = .ok () ↔
+      m.valid = true ∧ requested.acceptingCommitments = true ∧
+      AttrsOkNorm requested.reqCommit attrs ∧ FlatFeeOk requested.createCommitFlat m.cfee ∧
+      FundsOk bal m.cfee m.amount := by
+  rw [commitFunds_admits_iff (mk := some (storeMarket requested))
+    (fun mkt h => by cases h; exact hw)]
+  unfold CommitAdmissible
+  simp only [Option.some.injEq, exists_eq_left']
+  constructor
+  · rintro ⟨hv, ⟨ha, hat, hf⟩, hfu⟩; exact ⟨hv, ha, hat, hf, hfu⟩
+  · rintro ⟨hv, ha, hat, hf, hfu⟩; exact ⟨hv, ⟨ha, hat, hf⟩, hfu⟩
+
+/-- Historical witness (the code before provenance commit 7640f62e9, modelled by
+`storeMarketPreFix`): the create-commitment list was stored as given, so a market asking for
+`KYC.pb` refused the account that carries `kyc.pb` although the requested attribute,
+normalised like every name on chain, is matched — and accepted nobody, since account
+attribute names are always normalised. -/
+theorem commit_reqattr_not_normalised_before_fix :
     let requested : Market := { acceptingCommitments := true, reqCommit := ["KYC.pb"] }
     let msg : CommitMsg := { marketId := 1, amount := [("usd", 5)], cfee := none }
-    commitFunds (some (storeMarket requested)) ["kyc.pb"] [("usd", 10)] msg = .error .attr ∧
+    commitFunds (some (storeMarketPreFix requested)) ["kyc.pb"] [("usd", 10)] msg = .error .attr ∧
     AttrsOkNorm requested.reqCommit ["kyc.pb"] ∧
     msg.valid = true ∧ FundsOk [("usd", 10)] msg.cfee msg.amount := by
   refine ⟨by rfl, by decide, by decide, by decide⟩
 
-/-- With the stored list normalised (what the proposed fix does) the same commitment is admitted. -/
+/-- The current code admits the same commitment. -/
 theorem commit_reqattr_normalised_admits :
-    commitFunds (some { acceptingCommitments := true, reqCommit := ["KYC.pb"].map normalizeName })
+    commitFunds (some (storeMarket { acceptingCommitments := true, reqCommit := ["KYC.pb"] }))
       ["kyc.pb"] [("usd", 10)] { marketId := 1, amount := [("usd", 5)], cfee := none } = .ok () := by
   rfl
 
